@@ -305,7 +305,14 @@ func ruRun(in []byte) (interface{}, error) {
 			for name, e := range m {
 				if preSet[fmt.Sprintf("%d/%s", db, name)] && e.Val.Kind == "string" && string(e.Val.Str) == "old" && e.ExpireAt == 0 {
 					// what the target held before the run, untouched
-					target = append(target, map[string]interface{}{"db": db, "id": 0, "pre": true, "val_ok": true, "ttl_ok": true})
+					// (which source key has this name in this - mapped - database, if any: under key_exists = ignore it must stay like this)
+					preOf := 0
+					for i := range c.Keys {
+						if c.Keys[i].Name == name && tdbOf(c.Keys[i].Db) == db {
+							preOf = c.Keys[i].Id
+						}
+					}
+					target = append(target, map[string]interface{}{"db": db, "id": 0, "pre": true, "pre_of": preOf, "val_ok": true, "ttl_ok": true})
 					continue
 				}
 				// which source key is this?  (same name, mapped database; prefer the one whose value matches)
@@ -324,7 +331,7 @@ func ruRun(in []byte) (interface{}, error) {
 				}
 				k := byId[id]
 				ttlOK := (k.TtlMs == 0 && e.ExpireAt == 0) || (k.TtlMs > 0 && e.ExpireAt == ruNow+k.TtlMs)
-				target = append(target, map[string]interface{}{"db": db, "id": id, "pre": false, "val_ok": rdbref.Equal(e.Val, vals[id]), "ttl_ok": ttlOK})
+				target = append(target, map[string]interface{}{"db": db, "id": id, "pre": false, "pre_of": 0, "val_ok": rdbref.Equal(e.Val, vals[id]), "ttl_ok": ttlOK})
 			}
 		}
 		// expanded restores are recognisable in the target's log (no RESTORE for the key)
@@ -338,9 +345,9 @@ func ruRun(in []byte) (interface{}, error) {
 		jkeys := []map[string]interface{}{}
 		for i := range c.Keys {
 			k := &c.Keys[i]
-			jkeys = append(jkeys, map[string]interface{}{"id": k.Id, "src": k.Src, "db": k.Db, "vanish": k.Vanish, "ttl": k.TtlMs > 0, "scanned": k.Scanned, "passes": k.Passes})
+			jkeys = append(jkeys, map[string]interface{}{"id": k.Id, "src": k.Src, "db": k.Db, "pre": preSet[fmt.Sprintf("%d/%s", tdbOf(k.Db), k.Name)], "vanish": k.Vanish, "ttl": k.TtlMs > 0, "scanned": k.Scanned, "passes": k.Passes})
 		}
-		tr.Emit(tracer.Ev{"e": "rcase", "case": c.Id, "keys": jkeys, "scans": scans, "tdb": c.Cfg.Tdb, "sources": c.Sources})
+		tr.Emit(tracer.Ev{"e": "rcase", "case": c.Id, "keys": jkeys, "scans": scans, "tdb": c.Cfg.Tdb, "sources": c.Sources, "key_exists": c.Cfg.KeyExists})
 		tr.Emit(tracer.Ev{"e": "rend", "case": c.Id, "finished": finished, "hung": hung, "err": errText, "target": target, "foreign": foreign,
 			"expanded_cmds": expanded, "wall_ms": int(wall / time.Millisecond)})
 		if !hung {
